@@ -28,6 +28,7 @@ func genCase(t *rapid.T) Case {
 		c.Cfg.Table.Q[k] = gen.Outcome(gen.SimpleTypes, 5, 6, 10).Draw(t, "outcome")
 	}
 	c.TLS = rapid.IntRange(0, 7).Draw(t, "inside-tls") == 3
+	c.Cfg.OptSeed = rapid.IntRange(0, 1000).Draw(t, "option-order")
 	n := rapid.IntRange(1, 8).Draw(t, "nmsgs")
 	for i := 0; i < n; i++ {
 		if rapid.IntRange(0, 6).Draw(t, "blank?") == 0 {
